@@ -1,4 +1,5 @@
 import RV.C14.Model
+import RV.C14.Canon
 import RV.Base.Proto
 /-
   C14 driver.  Protocol (one line in, one line out):
@@ -8,6 +9,9 @@ import RV.Base.Proto
     skolem T T T …                   -> true | false
          each `T` is `i:cp.cp.…` (IRI), `b:cp.cp.…` (blank-node label) or `l:n` (opaque literal n);
          answer = `isoDecide g (deSkolemize (skolemize g))` after interning the string terms
+    refine c c c …                    -> the blank-node partition after the initial colour refinement of the
+                                         model (`refinePartition`), canonical: classes sorted, `|`-separated
+                                         (diagnostic tie of RV/C14/Canon.lean to `_TripleCanonicalizer._refine`)
     diff                              -> true true true    (theorem `diff_clauses`: the three clauses hold
                                                             for a sound `canon`; constant prediction)
   anything else -> bad-op
@@ -100,6 +104,12 @@ def step (s : Unit) : List String → Unit × String
       let g' := deSkolemize simpleUrl freshLabel (skolemize simpleUrl g)
       let v := vocab g ++ vocab g'
       (s, showB (isoDecide (intern v g) (intern v g')))
+    | none => (s, "bad-op")
+  | "refine" :: rest =>
+    match triples? rest with
+    | some g =>
+      let classes := (refinePartition g).map (fun c => sortBy (fun a b => decide (a < b)) c)
+      (s, " | ".intercalate ((sortBy lexLt classes).map showNats))
     | none => (s, "bad-op")
   | ["diff"] => (s, "true true true")
   | _ => (s, "bad-op")
